@@ -79,9 +79,19 @@ Lemma ext_rdbe k : ext_ok (rdbe k).
 Proof. apply ext_rdbe_acc. Qed.
 Lemma len_app a b : len (a ++ b) = len a + len b.
 Proof. unfold len. rewrite app_length. lia. Qed.
+Lemma take_spec : forall b n,
+  take n b = if len b <? n then None else Some (firstn (N.to_nat n) b, skipn (N.to_nat n) b).
+Proof.
+  induction b as [|x b IH]; intros n; cbn [take].
+  - destruct (N.eqb_spec n 0) as [->|Hn]; [reflexivity|]. unfold len. cbn [length].
+    destruct (N.ltb_spec (N.of_nat 0) n); [reflexivity|lia].
+  - destruct (N.eqb_spec n 0) as [->|Hn]; [reflexivity|]. rewrite IH. unfold len. cbn [length].
+    destruct (N.ltb_spec (N.of_nat (length b)) (N.pred n)); destruct (N.ltb_spec (N.of_nat (S (length b))) n); try lia; [reflexivity|].
+    replace (N.to_nat n) with (S (N.to_nat (N.pred n))) by lia. reflexivity.
+Qed.
 Lemma ext_take n : ext_ok (take n).
 Proof.
-  intros b v r s H. unfold take in *. destruct (N.ltb_spec (len b) n) as [Hl|Hl]; [discriminate|].
+  intros b v r s H. rewrite take_spec in *. destruct (N.ltb_spec (len b) n) as [Hl|Hl]; [discriminate|].
   injection H as <- <-. rewrite len_app. destruct (N.ltb_spec (len b + len s) n) as [Hl'|Hl']; [lia|].
   unfold len in Hl. rewrite firstn_app, skipn_app.
   replace (N.to_nat n - length b)%nat with 0%nat by lia. cbn [firstn skipn]. rewrite app_nil_r. reflexivity.
@@ -139,7 +149,7 @@ Lemma suffix_rdbe k : suffix_ok (rdbe k).
 Proof. apply suffix_rdbe_acc. Qed.
 Lemma suffix_take n : suffix_ok (take n).
 Proof.
-  intros b v r H. unfold take in H. destruct (len b <? n); [discriminate|]. injection H as <- <-.
+  intros b v r H. rewrite take_spec in H. destruct (len b <? n); [discriminate|]. injection H as <- <-.
   exists (firstn (N.to_nat n) b). symmetry. apply firstn_skipn.
 Qed.
 Lemma splits_check_type t : splits (check_type t).
@@ -196,7 +206,7 @@ Proof. induction k as [|k IH]; cbn [be length]; [reflexivity|rewrite IH; reflexi
 
 Lemma take_app s r : take (len s) (s ++ r) = Some (s, r).
 Proof.
-  unfold take. rewrite len_app. destruct (N.ltb_spec (len s + len r) (len s)) as [H|H]; [lia|].
+  rewrite take_spec. rewrite len_app. destruct (N.ltb_spec (len s + len r) (len s)) as [H|H]; [lia|].
   unfold len. rewrite Nat2N.id. rewrite firstn_app, skipn_app, Nat.sub_diag, firstn_all, skipn_all.
   cbn [firstn skipn]. rewrite app_nil_r. reflexivity.
 Qed.
